@@ -5,6 +5,12 @@ CONSTANTS
   Lens = {100, 511, 512, 513, 700, 1233, 5000}
   OptLens = {0, 11, 300}
   ROpts = {"none", "keepalive"}
+  Recipes = {"plain"}
+  Routes = {"mk"}
+  ALays = {"none"}
+  Tgts = {"vec"}
+  SvcRoutes = {"impl"}
+  EOns = {TRUE}
   QLens = {17, 259}
 SPECIFICATION Spec
 INVARIANT UdpSize
